@@ -18,6 +18,7 @@ from ..prng import sub
 from ..world import sha
 
 ID = "C04"
+PROBES = ['probe_usage_error_config', 'probe_approve_nothing_config']  # reach probes: counters that must be non-zero in a run (a zero is printed and recorded)
 LEVEL = "exploration"
 BUDGET = {"quick": 420, "thorough": 9000}
 WALL = {"quick": 300, "thorough": 3400}
